@@ -577,6 +577,8 @@ class Lib:
         if isinstance(o, SymSeq):
             kt = V.Int.unwrap(k)
             idx = z3.If(kt < 0, kt + o.length, kt)
+            if isinstance(k, int) and not isinstance(k, bool):
+                idx = (o.length + k) if k < 0 else z3.IntVal(k)  # the same index without an if-then-else term
             if ctx.decide(z3.Or(idx < 0, idx >= o.length)):
                 raise self.raise_ext("IndexError")
             return o.at(ctx, idx)
@@ -774,6 +776,13 @@ class Lib:
         card = self.e.uf("card", V.IntSetSort, z3.IntSort())
         c = card(s.term)
         ctx.assume(c >= 0)
+        # ASSUMED: len() of a set that has an element is at least 1
+        ASSUMED.setdefault("len(set)", "len(s) >= 0, and len(s) >= 1 for a set that has an element")
+        x = z3.FreshConst(s.elem_sort, "x")
+        try:
+            ctx.assume(z3.ForAll([x], z3.Implies(z3.Select(s.term, x), c >= 1), patterns=[z3.Select(s.term, x)]))
+        except z3.Z3Exception:
+            ctx.assume(z3.ForAll([x], z3.Implies(z3.Select(s.term, x), c >= 1)))
         return c
 
     def bi_isinstance(self, ctx, v, cls):
